@@ -219,14 +219,17 @@ def set_parameter_exports():
 
 
 def set_parameter_from_string_exports():
-    """does SecopClient.setParameterFromString export the value it got from from_string?  (pinned tree: no)"""
+    """SecopClient.setParameterFromString sends datatype.export_value(datatype.from_string(formatted))
+    (repaired by 7a693b7; before, the internal value was sent)"""
     f = find_func(_client(), 'setParameterFromString')
-    s = src(f).replace(' ', '')
-    if 'value=datatype.from_string(formatted)' not in s:
-        raise Shape('setParameterFromString: expected value = datatype.from_string(formatted)')
-    if 'self.request(WRITEREQUEST,self.identifier[module,parameter],' not in s:
-        raise Shape('setParameterFromString: expected a WRITEREQUEST')
-    return 'bool', cbool('export_value' in s)
+    stmts = [src(st).replace(' ', '') for st in f.body
+             if not (isinstance(st, ast.Expr) and isinstance(st.value, ast.Constant))]
+    ok = stmts == ['self.connect()',
+                   "datatype=self.modules[module]['parameters'][parameter]['datatype']",
+                   'value=datatype.export_value(datatype.from_string(formatted))',
+                   'self.request(WRITEREQUEST,self.identifier[module,parameter],value)',
+                   'returnself.cache[module,parameter]']
+    return 'bool', cbool(ok)
 
 
 def client_update_imports():
